@@ -12,6 +12,9 @@ import (
 	"strings"
 	"sync"
 	"testing"
+	"time"
+
+	"github.com/golang-jwt/jwt/v4"
 
 	"github.com/crewjam/saml"
 	"github.com/crewjam/saml/samlidp"
@@ -22,19 +25,28 @@ import (
 // middlewares that exchanged their real metadata; every transition of the composed model
 // is executed from a snapshot (IdP store copy + the browser's two cookie jars + messages in flight).
 
+type ssoResp struct {
+	For   string `json:"for"`
+	Sol   string `json:"sol"` // cur | old | no
+	Fresh bool   `json:"fresh"`
+}
+
+func (r ssoResp) id() string { return fmt.Sprintf("%s/sol=%s", r.For, r.Sol) }
+
 type ssoView struct {
 	Reg     []string          `json:"reg"`
 	IdpSess bool              `json:"idpSess"`
 	Flow    map[string]string `json:"flow"`
-	Reqs    []string          `json:"reqs"`
-	Resps   []string          `json:"resps"`
+	Reqs    map[string]string `json:"reqs"`
+	Resps   []ssoResp         `json:"resps"`
 	SpSess  map[string]bool   `json:"spSess"`
+	Ticks   int               `json:"ticks"`
 }
 type ssoAct struct {
-	N  string `json:"n"`
-	S  string `json:"s"`
-	R  string `json:"r"`
-	To string `json:"to"`
+	N  string  `json:"n"`
+	S  string  `json:"s"`
+	R  ssoResp `json:"r"`
+	To string  `json:"to"`
 }
 type ssoEdge struct {
 	From  ssoView `json:"from"`
@@ -44,18 +56,10 @@ type ssoEdge struct {
 }
 
 func (v ssoView) key() string {
+	v.Reg = append([]string{}, v.Reg...)
 	sort.Strings(v.Reg)
-	sort.Strings(v.Reqs)
-	sort.Strings(v.Resps)
-	if v.Reg == nil {
-		v.Reg = []string{}
-	}
-	if v.Reqs == nil {
-		v.Reqs = []string{}
-	}
-	if v.Resps == nil {
-		v.Resps = []string{}
-	}
+	v.Resps = append([]ssoResp{}, v.Resps...)
+	sort.Slice(v.Resps, func(i, j int) bool { return fmt.Sprint(v.Resps[i]) < fmt.Sprint(v.Resps[j]) })
 	b, _ := json.Marshal(v)
 	return string(b)
 }
@@ -69,8 +73,9 @@ type ssoSP struct {
 }
 
 type ssoMsg struct {
-	URL    string     // Start: the redirect target at the IdP (GET) ...
-	Form   url.Values // ... or the POST-binding form for the IdP / the response form for the SP
+	At     time.Duration // clock offset when the message was issued
+	URL    string        // Start: the redirect target at the IdP (GET) ...
+	Form   url.Values    // ... or the POST-binding form for the IdP / the response form for the SP
 	Action string
 }
 
@@ -83,10 +88,11 @@ type ssoState struct {
 	resps    map[string]*ssoMsg
 	flowURI  map[string]string
 	sessUser map[string]string
+	offset   time.Duration // how far the clock has advanced
 }
 
 func (s *ssoState) copy() *ssoState {
-	n := &ssoState{store: map[string]string{}, idpCk: s.idpCk, trk: map[string][]*http.Cookie{}, sessCk: map[string]*http.Cookie{},
+	n := &ssoState{offset: s.offset, store: map[string]string{}, idpCk: s.idpCk, trk: map[string][]*http.Cookie{}, sessCk: map[string]*http.Cookie{},
 		reqs: map[string]*ssoMsg{}, resps: map[string]*ssoMsg{}, flowURI: map[string]string{}, sessUser: map[string]string{}}
 	for k, v := range s.store {
 		n.store[k] = v
@@ -154,9 +160,13 @@ func TestSSOSystem(t *testing.T) {
 		rep.Break("no edges")
 		return
 	}
-	oldRand := saml.RandReader
+	oldRand, oldNow, oldJWT := saml.RandReader, saml.TimeNow, jwt.TimeFunc
 	saml.RandReader = &safeRand{r: newRand("sso-rand")}
-	defer func() { saml.RandReader = oldRand }()
+	saml.TimeNow, jwt.TimeFunc = goroutineNow, goroutineNow
+	defer func() { saml.RandReader, saml.TimeNow, jwt.TimeFunc = oldRand, oldNow, oldJWT }()
+	base := time.Date(2024, 4, 2, 9, 0, 0, 0, time.UTC)
+	setGoroutineClock(base)
+	defer clearGoroutineClock()
 
 	// the IdP's published metadata, as the SPs consume it
 	bootStore := newMapStore(nil)
@@ -176,8 +186,8 @@ func TestSSOSystem(t *testing.T) {
 		rep.Break("cannot create user: %d", w.Code)
 		return
 	}
-	mkSP := func(name, root string, kp *KeyPair, post, sign bool) *ssoSP {
-		m, err := samlsp.New(samlsp.Options{URL: mustURL(root), Key: kp.Key, Certificate: kp.Cert, IDPMetadata: idpMD, SignRequest: sign})
+	mkSP := func(name, root string, kp *KeyPair, post, sign, allowInit bool) *ssoSP {
+		m, err := samlsp.New(samlsp.Options{URL: mustURL(root), Key: kp.Key, Certificate: kp.Cert, IDPMetadata: idpMD, SignRequest: sign, AllowIDPInitiated: allowInit})
 		if err != nil {
 			panic(err)
 		}
@@ -196,8 +206,15 @@ func TestSSOSystem(t *testing.T) {
 		return s
 	}
 	sps := map[string]*ssoSP{
-		"A": mkSP("A", "https://spa.example.com", key("sp"), false, true),   // RSA: publishes an encryption key, signed redirect requests
-		"B": mkSP("B", "http://spb.example.com", key("ec256"), true, false), // ECDSA, POST binding, http deployment
+		"A": mkSP("A", "https://spa.example.com", key("sp"), false, true, false),  // RSA: publishes an encryption key, signed redirect requests
+		"B": mkSP("B", "http://spb.example.com", key("ec256"), true, false, true), // ECDSA, POST binding, http deployment, opted into IdP-initiated login
+	}
+	// a shortcut (IdP-initiated launch) per SP exists from the start
+	for n, s := range sps {
+		if w := doHTTP(boot, httpReq{Method: "PUT", URL: idpSrvRoot + "/shortcuts/to" + n, Body: `{"service_provider":"` + s.root + `/saml/metadata"}`}); w.Code != 204 {
+			rep.Break("cannot create shortcut: %d", w.Code)
+			return
+		}
 	}
 	host := func(s *ssoSP) string { return strings.TrimPrefix(strings.TrimPrefix(s.root, "https://"), "http://") }
 
@@ -225,7 +242,7 @@ func TestSSOSystem(t *testing.T) {
 		n := get(e.From)
 		get(e.To)
 		n.out = append(n.out, e)
-		if len(e.From.Reg) == 0 && !e.From.IdpSess && len(e.From.Reqs) == 0 && len(e.From.Resps) == 0 && e.From.Flow["A"] == "none" && e.From.Flow["B"] == "none" {
+		if len(e.From.Reg) == 0 && !e.From.IdpSess && e.From.Reqs["A"] == "none" && e.From.Reqs["B"] == "none" && len(e.From.Resps) == 0 && e.From.Flow["A"] == "none" && e.From.Flow["B"] == "none" && e.From.Ticks == 0 && !e.From.SpSess["A"] && !e.From.SpSess["B"] {
 			initKey = e.From.key()
 		}
 	}
@@ -259,13 +276,19 @@ func TestSSOSystem(t *testing.T) {
 			mu.Lock()
 			st := snaps[fk].copy()
 			mu.Unlock()
+			setGoroutineClock(base.Add(st.offset))
+			defer clearGoroutineClock()
 			store := newMapStore(st.store)
 			idp, err := newIdpSrv(store)
 			if err != nil {
 				rep.Break("restore: %v", err)
 				return
 			}
-			key_ := fmt.Sprintf("SSO:%s:%s%s%s:from=%s", ed.Act.N, ed.Act.S, ed.Act.R, ed.Act.To, hashKey(fk))
+			rid := ""
+			if ed.Act.N == "Deliver" {
+				rid = fmt.Sprintf("%s,fresh=%v>", ed.Act.R.id(), ed.Act.R.Fresh)
+			}
+			key_ := fmt.Sprintf("SSO:%s:%s%s%s:from=%s", ed.Act.N, ed.Act.S, rid, ed.Act.To, hashKey(fk))
 			real := "?"
 			var clause string
 			switch ed.Act.N {
@@ -289,12 +312,65 @@ func TestSSOSystem(t *testing.T) {
 			case "IdPLogout":
 				id := strings.TrimPrefix(st.idpCk, "session=")
 				w := doHTTP(idp, httpReq{Method: "DELETE", URL: idpSrvRoot + "/sessions/" + url.PathEscape(id)})
+				real = fmt.Sprint(w.Code) // the browser keeps the cookie: the server must have forgotten the session
+			case "TickShort":
+				st.offset += 6 * time.Minute
+				real = "none"
+			case "TickLong":
+				st.offset += 61 * time.Minute
+				real = "none"
+			case "Visit":
+				s := sps[ed.Act.S]
+				w := serveOn(s.protected, "GET", host(s), "/app/"+strings.ToLower(s.name)+"?x=1", nil, []*http.Cookie{st.sessCk[s.name]})
 				real = fmt.Sprint(w.Code)
-				st.idpCk = ""
+				if w.Code == 200 && strings.Contains(w.Body.String(), "hello alice") {
+					real = "page"
+				}
+			case "SPLogout":
+				s := sps[ed.Act.S]
+				r := httptest.NewRequest("GET", "/app/logout", nil)
+				r.Host = host(s)
+				r.AddCookie(st.sessCk[s.name])
+				w := httptest.NewRecorder()
+				if err := s.mw.Session.DeleteSession(w, r); err != nil {
+					real = "error: " + err.Error()
+					break
+				}
+				for _, c := range w.Result().Cookies() {
+					if c.Name == "token" && (c.Value == "" || c.MaxAge < 0) {
+						real = "loggedout"
+						delete(st.sessCk, s.name)
+					}
+				}
+			case "Launch":
+				w := doHTTP(idp, httpReq{Method: "GET", URL: idpSrvRoot + "/login/to" + ed.Act.S, Cookie: st.idpCk})
+				body := w.Body.String()
+				switch {
+				case w.Code != 200:
+					real = fmt.Sprint(w.Code)
+				case strings.Contains(body, `name="SAMLResponse"`):
+					real = "response"
+					f, action := htmlFormFields(body)
+					st.resps[fmt.Sprintf("%s@%d", ssoResp{For: ed.Act.S, Sol: "no"}.id(), st.offset)] = &ssoMsg{Form: f, Action: action, At: st.offset}
+					if !strings.HasPrefix(action, sps[ed.Act.S].root+"/") {
+						clause = "the IdP-initiated response form targets " + action + ", not the SP of the shortcut"
+					}
+				case strings.Contains(body, `name="password"`):
+					real = "loginform"
+				default:
+					real = "other"
+				}
+				if real == "response" && !(ed.From.IdpSess && contains(ed.From.Reg, ed.Act.S)) {
+					clause = "the IdP issued an unsolicited response although the browser has no valid IdP session or the SP is not registered"
+				}
 			case "Start":
 				s := sps[ed.Act.S]
 				uri := "/app/" + strings.ToLower(s.name) + "?x=1"
-				w := serveOn(s.protected, "GET", host(s), uri, nil, nil)
+				var jar []*http.Cookie
+				if c := st.sessCk[s.name]; c != nil {
+					jar = append(jar, c) // a session cookie that outlived its session: it must not open the page
+				}
+				w := serveOn(s.protected, "GET", host(s), uri, nil, jar)
 				m := &ssoMsg{}
 				switch {
 				case w.Code == 302:
@@ -313,6 +389,13 @@ func TestSSOSystem(t *testing.T) {
 				}
 				st.reqs[s.name] = m
 				st.flowURI[s.name] = uri
+				// responses still in flight for this SP answer a flow the browser has replaced
+				for k, msg := range st.resps {
+					if strings.HasPrefix(k, ssoResp{For: s.name, Sol: "cur"}.id()+"@") {
+						delete(st.resps, k)
+						st.resps[strings.Replace(k, "sol=cur", "sol=old", 1)] = msg
+					}
+				}
 			case "Serve":
 				m := st.reqs[ed.Act.S]
 				var w *httptest.ResponseRecorder
@@ -328,7 +411,7 @@ func TestSSOSystem(t *testing.T) {
 				case strings.Contains(body, `name="SAMLResponse"`):
 					real = "response"
 					f, action := htmlFormFields(body)
-					st.resps[ed.Act.S] = &ssoMsg{Form: f, Action: action}
+					st.resps[fmt.Sprintf("%s@%d", ssoResp{For: ed.Act.S, Sol: "cur"}.id(), st.offset)] = &ssoMsg{Form: f, Action: action, At: st.offset}
 					// the response form must target an ACS of the SP the request came from
 					if !strings.HasPrefix(action, sps[ed.Act.S].root+"/") {
 						clause = "the IdP's response form targets " + action + ", not the requesting SP"
@@ -342,9 +425,28 @@ func TestSSOSystem(t *testing.T) {
 				if real == "response" && !(ed.From.IdpSess && contains(ed.From.Reg, ed.Act.S)) {
 					clause = "the IdP issued a response although the browser has no IdP session or the SP is not registered"
 				}
+				if real == "response" && ed.From.Reqs[ed.Act.S] == "stale" {
+					clause = "the IdP answered an authentication request that is older than every freshness window"
+				}
 			case "Deliver":
 				to := sps[ed.Act.To]
-				m := st.resps[ed.Act.R]
+				// the message of that kind issued in the current clock epoch (fresh) or the latest older one (stale)
+				var m *ssoMsg
+				for k, cand := range st.resps {
+					if !strings.HasPrefix(k, ed.Act.R.id()+"@") {
+						continue
+					}
+					if ed.Act.R.Fresh && cand.At == st.offset {
+						m = cand
+					}
+					if !ed.Act.R.Fresh && cand.At < st.offset && (m == nil || cand.At > m.At) {
+						m = cand
+					}
+				}
+				if m == nil {
+					rep.Break("harness: no concrete message for %v in state %s", ed.Act.R, fk)
+					return
+				}
 				w := serveOn(to.mw, "POST", host(to), "/saml/acs", m.Form, st.trk[to.name])
 				real = fmt.Sprint(w.Code)
 				for _, c := range w.Result().Cookies() {
@@ -352,12 +454,25 @@ func TestSSOSystem(t *testing.T) {
 						real = "session"
 						st.sessCk[to.name] = &http.Cookie{Name: c.Name, Value: c.Value}
 						// the session must actually work and carry the IdP's user
-						w2 := serveOn(to.protected, "GET", host(to), st.flowURI[to.name], nil, []*http.Cookie{st.sessCk[to.name]})
+						w2 := serveOn(to.protected, "GET", host(to), "/app/"+strings.ToLower(to.name)+"?x=1", nil, []*http.Cookie{st.sessCk[to.name]})
 						if w2.Code != 200 || !strings.Contains(w2.Body.String(), "hello alice") {
 							clause = fmt.Sprintf("the established session does not expose the authenticated user (status %d, body %q)", w2.Code, head(w2.Body.String(), 60))
 						}
-						if loc := w.Header().Get("Location"); loc != st.flowURI[to.name] {
+						loc := w.Header().Get("Location")
+						ownFlow := ed.Act.R.Sol == "cur" && ed.Act.R.For == to.name && ed.From.Flow[to.name] == "pending"
+						if ownFlow && loc != st.flowURI[to.name] {
 							clause = "after completion the browser is sent to " + loc + ", not to the page it asked for (" + st.flowURI[to.name] + ")"
+						}
+						if !ownFlow {
+							// an SP that opted into IdP-initiated login uses a RelayState it cannot resolve as the target
+							switch {
+							case loc == "/":
+								real = "session-default"
+							case m.Form.Get("RelayState") != "" && strings.HasSuffix(loc, "/"+m.Form.Get("RelayState")):
+								real = "session-relay"
+							default:
+								real = "session-elsewhere:" + loc
+							}
 						}
 					}
 					if strings.HasPrefix(c.Name, "saml_") && c.Value == "" {
@@ -370,12 +485,19 @@ func TestSSOSystem(t *testing.T) {
 						st.trk[to.name] = keep
 					}
 				}
-				own := ed.Act.R == ed.Act.To && ed.From.Flow[ed.Act.To] == "pending"
-				if real == "session" && !own {
-					clause = "SP " + ed.Act.To + " established a session from a response issued for SP " + ed.Act.R + " / without a pending flow of its own"
-				}
-				if real != "session" && own {
-					clause = "the faithful run (registered SP, authenticated browser, own pending flow) did not establish a session: " + real
+				r := ed.Act.R
+				got := strings.HasPrefix(real, "session")
+				own := r.Sol == "cur" && r.Fresh && r.For == ed.Act.To && ed.From.Flow[ed.Act.To] == "pending"
+				optedIn := ed.Act.To == "B"
+				switch {
+				case got && !r.Fresh:
+					clause = "SP " + ed.Act.To + " established a session from a response older than every freshness window"
+				case got && r.For != ed.Act.To:
+					clause = "SP " + ed.Act.To + " established a session from a response issued for SP " + r.For
+				case got && !optedIn && !own:
+					clause = "SP " + ed.Act.To + " did not opt into IdP-initiated login and established a session from a response that answers no pending flow of this browser (response: " + r.Sol + ", flow: " + ed.From.Flow[ed.Act.To] + ")"
+				case !got && own:
+					clause = "the faithful run (registered SP, authenticated browser, own pending flow, no delay) did not establish a session: " + real
 				}
 			}
 			mu.Lock()
